@@ -57,7 +57,7 @@ class Checker:
         if not d.fast:
             try:
                 pk = self.enc.encode_ebyte(msg)
-                data2 = pk[0][5:]
+                data2 = pk[0][5:5 + (pk[0][0] & 0x0F)]
                 if data2 != data:
                     out.append((f"C02|ebyte-differs|{d.key}", f"encode_ebyte data {data2.hex()} != encode_actisense payload {data.hex()}", case))
             except Exception as e:
